@@ -89,6 +89,8 @@ def run(pid, tier):
       lib.tlaps(rep, 'ScpiStatusProofs', ['ScpiStatus'],
                 ['Spec => []StbCoherent', 'Spec => []QueueBounded'] if pid == 'C11' else
                 ['Spec => SrqOnRise', 'Spec => []NoSrqWhileClear', 'Spec => Latch', 'Spec => Sticky', 'Spec => PushSetsClassBit'])
+      lib.tlaps(rep, 'ScpiStatusNestedProofs', ['ScpiStatus', 'ScpiStatusNested'],
+                ['SpecN => []StbCoherent (error callback re-enters the library)'] if pid == 'C11' else ['SpecN => SrqOnRise (error callback re-enters the library)'])
     w = lib.workdir(pid)
     exe = lib.build('drv_status', ['drv_status.c'])
     alphabets = ['A', 'B', 'C'] if tier == 'quick' else ['A', 'B', 'C', 'F', 'G', 'D']
